@@ -531,6 +531,7 @@ SEEDS = [
     [[("call", 1), ("tracex",)], [("deferclo", [("recover",), ("setr", 13)]), ("setr", 11), ("panic", ("int", 1)), ("retr",)]],
     [[("call", 1), ("tracex",)], [("setr", 11), ("deferclo", [("setr", 12), ("block",), ("setr", 14)]), ("block",), ("retr",), ("trace", 1), ("retr",)]],
     [[("defer", 1), ("setr", 15), ("deferclo", [("block",), ("setr", 16), ("tracex",)]), ("retr",)], [("block",), ("tracex",)]],
+    [[("deferclo", [("deferclo", [("block",), ("recover",)]), ("panic", ("int", 1))]), ("trace", 1)]],      # nested: panic in a deferred call whose own deferred call suspends (finding)
     # deferred calls that really suspend the goroutine: while panicking, on normal return, during Goexit, nested
     [[("trace", 1), ("deferclo", [("recover",), ("trace", 2)]), ("deferclo", [("block",), ("trace", 3)]), ("trace", 4), ("panic", ("int", 1)), ("trace", 5)]],
     [[("deferclo", [("block",), ("recover",), ("setr", 12)]), ("trace", 1), ("block",), ("trace", 2), ("panic", ("rt", 0))]],
@@ -668,8 +669,8 @@ def defer_programs(ctx):
     def run_shard(s):
         k, cs = s
         return k, len(cs), coq_eval(ctx, "b_%d" % k, "Definition cases : list bcase := [\n" + ";\n".join(cs) + "].\n",
-                                    [("MI", "bmismatches_impl cases"), ("MS", "bmismatches_spec cases"), ("CL", "bclasses cases"), ("BF", "bblockflags cases"), ("BG", "bblockflags2 cases")])
-    impl_bad, spec_bad, evaluated, blockflag, blockflag2 = set(), set(), set(), set(), set()
+                                    [("MI", "bmismatches_impl cases"), ("MS", "bmismatches_spec cases"), ("CL", "bclasses cases"), ("BF", "bblockflags cases"), ("BG", "bblockflags2 cases"), ("BH", "bblockflags3 cases")])
+    impl_bad, spec_bad, evaluated, blockflag, blockflag2, blockflag3 = set(), set(), set(), set(), set(), set()
     for k, n, (res, log) in C.parallel_map(run_shard, shards):
         if res is None:
             if infra(None, log):
@@ -681,6 +682,7 @@ def defer_programs(ctx):
         spec_bad |= {idxmap[k + j] for j in res["MS"]}
         blockflag |= {idxmap[k + j] for j in res["BF"]}
         blockflag2 |= {idxmap[k + j] for j in res["BG"]}
+        blockflag3 |= {idxmap[k + j] for j in res["BH"]}
         for j, c in enumerate(res["CL"]):
             results[idxmap[k + j]]["_class"] = c
             evaluated.add(idxmap[k + j])
@@ -700,6 +702,12 @@ def defer_programs(ctx):
             ctx.violation("blocked-deferred-panic-recovered-by-caller-continues",
                           "a deferred call really blocks while a panic is in flight and the panic is then recovered by a deferred call of an outer frame: "
                           "the inner function returns normally and its caller's body continues after the call", rep)
+            continue
+        if res.get("_differs") and i in blockflag3 and i not in spec_bad:
+            nknown += 1
+            ctx.violation("suspended-panic-adopted-by-outer-epilogue",
+                          "a panic is raised inside a deferred call and one of that call's own deferred calls really blocks: on resumption the re-queued panic "
+                          "is popped by the epilogue $callDeferred of the OUTER function (it resumes first), so recover() in the inner deferred call returns nil", rep)
             continue
         if res.get("_differs") and i in blockflag2 and i not in spec_bad:
             nknown += 1
@@ -726,6 +734,7 @@ def defer_programs(ctx):
     dist["model_classes"] = {str(k): v for k, v in sorted(classes.items())}
     dist["programs_in_blocked_panic_class"] = len(blockflag)
     dist["programs_in_blocked_replaced_panic_class"] = len(blockflag2)
+    dist["programs_in_nested_suspended_panic_class"] = len(blockflag3)
     dist["programs_differing_from_go_as_predicted"] = nknown
     ctx.cov["b_distribution"] = dist
     ctx.cov["b_programs"] = len(progs)
